@@ -21,7 +21,7 @@ from ..engine import rec as _rec, emit as _emit, checked  # noqa: E402
 
 
 
-@rule("MES-TABLE", ["C08", "C20", "C01", "C12"], floor=12)
+@rule("MES-TABLE", ["C08", "C20", "C01", "C12", "C06"], floor=12)
 def mes_table(ctx):
     """matches_empty_string(): NEVER (1024) must mean never and ANYWHERE (7) anywhere, because the quantifier
     lowering, the no-backtracking rewrite and the first-set cut rely on them: Bol AT_START(1), Eol AT_END(2),
